@@ -33,6 +33,13 @@ fn log_delivery(m: &M12) {
             if !got_ok {
                 hist::log("attachment.bad", s as i64, q as i64, m.regs.len() as i64, &format!("{} regions of lengths {:?}", m.regs.len(), m.regs.iter().map(|g| g.len()).collect::<Vec<_>>()));
             }
+            if s == 1 && q == 100 {
+                // the victim's message: what it carried is judged against what the case attached
+                for a in m.att.iter() {
+                    let _ = a.send(777);
+                }
+                hist::log("victim.delivered", m.att.len() as i64, m.regs.len() as i64, 0, "");
+            }
             if s != 1 && !m.att.is_empty() {
                 hist::log("attachment.bad", s as i64, q as i64, m.att.len() as i64, "unexpected endpoint attached");
             }
@@ -172,6 +179,7 @@ impl Scenario for C12S {
                             },
                             Err(TryRecvError::Empty) => {
                                 empties += 1;
+                                hist::log("obs.empty", empties, 0, 0, "");
                                 if empties > 60 {
                                     hist::log("obs.gaveup", 0, 0, 0, "");
                                     std::mem::forget(rx);
@@ -199,7 +207,6 @@ impl Scenario for C12S {
         }
         // victim (sim-process 1)
         let (side_tx, side_rx) = ipc::channel::<u32>().unwrap();
-        std::mem::forget(side_rx);
         spawn_process("victim", 1, (tx.clone(), side_tx), move |(tx, side): (IpcSender<M12>, IpcSender<u32>)| {
             for q in 0..prior {
                 let d = make_payload(12, 1, q, if q % 2 == 0 { 200 } else { 6000 });
@@ -331,11 +338,35 @@ impl Scenario for C12S {
                 out.viol("survivor-send-failed:send", format!("the surviving sender's send #{} failed ({}) although the receiver exists", s.1, s.5));
             }
         }
+        // the victim's message, if delivered, arrives with exactly what was attached to it
+        if let Some(v) = evs.iter().find(|e| e.op == "victim.delivered") {
+            let want = if with_att { (1, 1) } else { (0, 0) };
+            if (v.a, v.b) != want {
+                out.viol("attachments-lost:recv", format!("the victim's message was delivered with {} endpoint(s) and {} region(s); it was sent with {} and {} (crash point {:?})", v.a, v.b, want.0, want.1, crash_at));
+            } else if with_att && !blocked.iter().any(|b| b.label == "observer") {
+                match side_rx.try_recv() {
+                    Ok(777) => {},
+                    other => out.viol("attachment-misassigned:recv", format!("the endpoint delivered with the victim's message is not the attached one (probe through it arrived as {:?})", other.ok())),
+                }
+            }
+        }
+        std::mem::forget(side_rx);
         // order per sender
         for snd in [1i64, 2] {
             let seqs: Vec<i64> = delivered.iter().filter(|d| d.0 == snd).map(|d| d.1).collect();
             if seqs.windows(2).any(|w| w[0] > w[1]) {
                 out.viol("order:recv", format!("messages of sender {} delivered out of order: {:?}", snd, seqs));
+            }
+        }
+        // a poll that began after every sender handle was certainly gone (it began after the previous
+        // poll's answer was logged) must not answer "empty": there is nothing left to wait for
+        {
+            let empt: Vec<&hist::Ev> = evs.iter().filter(|e| e.op == "obs.empty").collect();
+            for w in empt.windows(2) {
+                if w[1].a == w[0].a + 1 && all_gone_certainly_before(w[0].seq) {
+                    out.viol("empty-when-disconnected:try", format!("try_recv answered 'empty' (#{}) although every sender handle had certainly ceased to exist before the call began (#{}); crash point {:?}", w[1].seq, w[0].seq, crash_at));
+                    break;
+                }
             }
         }
         // the receiver does not wait for ever
